@@ -605,3 +605,267 @@ def gen_variant_cases(lang, rnd, titles, toks, ncases):
                 c.search(sid, prefix + q, expect=dict(prop="C11", kind="variant", tag=tag, base=b, ops=ops, prefix=prefix))
         cases.append(c)
     return cases
+
+
+# ------------------------------------------------------------------------------------------------ components
+MODEL_SYMS = [("a", "V"), ("t", "C"), ("7", "N"), ("ж", "A"), ("o", "V"), ("n", "C")]
+
+
+def all_words(nsym, maxlen):
+    out = [[]]
+    layer = [[]]
+    for _ in range(maxlen):
+        layer = [w + [k] for w in layer for k in range(nsym)]
+        out += layer
+    return out
+
+
+def dl_op(inst, w1, w2, classes_of, cells_all=200, sample=0, phase=0, any_classes=False):
+    c1 = ["A" if any_classes else classes_of(ch) for ch in w1]
+    c2 = ["A" if any_classes else classes_of(ch) for ch in w2]
+    op = dict(op="dl", inst=inst, w1=[ord(x) for x in w1], c1=c1, w2=[ord(x) for x in w2], c2=c2, cells_all_upto=cells_all)
+    if sample:
+        op["cells_sample"] = sample
+        op["cells_phase"] = phase
+    return op
+
+
+def gen_dl_cases(rnd, tier):
+    """C16 / C19: word pairs exhaustively over a small mixed alphabet, then random longer words (several times the
+    initial capacity of 20) alternating long and short; each pair also swapped, with all-Any classes, and some of its
+    prefix pairs on a fresh instance first"""
+    cases = []
+    nsym, maxlen = (4, 2) if tier == "quick" else (4, 3)
+    cls = dict(MODEL_SYMS)
+    words = ["".join(MODEL_SYMS[k][0] for k in w) for w in all_words(nsym, maxlen)]
+    c = Case("C16", "exhaustive-small")
+    c.op(op="dlnew", inst=1)
+    for a in words:
+        for b in words:
+            c.ops.append(dl_op(1, a, b, lambda ch: cls[ch]))
+    cases.append(c)
+    c = Case("C16", "exhaustive-small-any")
+    for a in words:
+        for b in words:
+            c.ops.append(dl_op(1, a, b, lambda ch: cls[ch], any_classes=True))
+            c.ops.append(dl_op(1, a, b, lambda ch: cls[ch]))
+    cases.append(c)
+    # random words over a richer alphabet, classes a function of the character
+    alpha = "aeiouytnsrlkdm7-3жλ"
+    cmap = {}
+    for ch in alpha:
+        cmap[ch] = "V" if ch in "aeiouy" else "C" if ch in "tnsrlkdm" else "N" if ch in "7-3" else "A"
+    nrand = 40 if tier == "quick" else 700
+    for k in range(nrand):
+        c = Case("C16", "random-history")
+        inst = 1
+        c.op(op="dlnew", inst=inst)
+        steps = rnd.randint(3, 8)
+        for s in range(steps):
+            long_turn = (s % 2 == 0) == (k % 2 == 0)
+            hi = rnd.choice([25, 45, 80]) if long_turn else 6
+            lo = 15 if long_turn else 0
+            if tier == "quick" and hi > 45:
+                hi = 45
+            la, lb = rnd.randint(lo, hi), rnd.randint(lo, hi)
+            sub = alpha[:rnd.choice([3, 6, len(alpha)])]
+            a = "".join(rnd.choice(sub) for _ in range(la))
+            if rnd.random() < 0.5:   # a relative of a: a few edits
+                b = list(a)
+                for _e in range(rnd.randint(0, 3)):
+                    if b and rnd.random() < 0.5:
+                        i = rnd.randrange(len(b))
+                        if rnd.random() < 0.5 and i + 1 < len(b):
+                            b[i], b[i + 1] = b[i + 1], b[i]
+                        else:
+                            del b[i]
+                    else:
+                        b.insert(rnd.randint(0, len(b)), rnd.choice(sub))
+                b = "".join(b)
+            else:
+                b = "".join(rnd.choice(sub) for _ in range(lb))
+            # some prefix pairs on a fresh instance first (they become the memo the cells are compared with)
+            npre = 2 if max(len(a), len(b)) > 20 else 4
+            for _p in range(npre):
+                i, j = rnd.randint(0, len(a)), rnd.randint(0, len(b))
+                if abs(i - j) <= 3 or rnd.random() < 0.3:
+                    c.op(op="dlnew", inst=99)
+                    c.ops.append(dl_op(99, a[:i], b[:j], lambda ch: cmap[ch], cells_all=0))
+            small = (len(a) + 1) * (len(b) + 1) <= 200
+            c.ops.append(dl_op(inst, a, b, lambda ch: cmap[ch], cells_all=200, sample=0 if small else 12, phase=rnd.randint(0, 1000)))
+            c.ops.append(dl_op(inst, b, a, lambda ch: cmap[ch], cells_all=0))
+            c.ops.append(dl_op(inst, a, b, lambda ch: cmap[ch], cells_all=0, any_classes=True))
+            c.ops.append(dl_op(inst, a, b, lambda ch: cmap[ch], cells_all=0))
+        cases.append(c)
+    return cases
+
+
+def gen_jac_cases(rnd, tier):
+    """C17 / C19: all pairs of short sequences over three symbols, then random long ones (beyond the initial buffer
+    capacity of 20) in random call orders, each also swapped, permuted and with repetitions"""
+    cases = []
+    maxlen = 3 if tier == "quick" else 4
+    seqs = ["".join("abc"[k] for k in w) for w in all_words(3, maxlen)]
+    c = Case("C17", "exhaustive-small")
+    c.op(op="jacnew", inst=1)
+    for a in seqs:
+        for b in seqs:
+            c.op(op="jac", inst=1, a=cps(a), b=cps(b))
+    cases.append(c)
+    nrand = 60 if tier == "quick" else 1500
+    for k in range(nrand):
+        c = Case("C17", "random-history")
+        c.op(op="jacnew", inst=1)
+        for s in range(rnd.randint(3, 8)):
+            long_turn = (s % 2 == 0) == (k % 2 == 0)
+            hi = rnd.choice([25, 50, 80]) if long_turn else 5
+            alpha = "abcdefghijklmnopqrstuvwxyzäöü0123456789"[:rnd.choice([3, 8, 39])]
+            a = [ord(rnd.choice(alpha)) for _ in range(rnd.randint(0, hi))]
+            b = [ord(rnd.choice(alpha)) for _ in range(rnd.randint(0, hi))]
+            c.op(op="jac", inst=1, a=a, b=b)
+            c.op(op="jac", inst=1, a=b, b=a)
+            a2 = a + [rnd.choice(a)] * rnd.randint(0, 3) if a else a
+            rnd.shuffle(a2)
+            c.op(op="jac", inst=1, a=a2, b=b)
+        cases.append(c)
+    return cases
+
+
+def gen_lsort_cases(rnd, tier):
+    cases = []
+    n = 30 if tier == "quick" else 600
+    for _ in range(n):
+        c = Case("C06", "limitsort")
+        for _k in range(10):
+            m = rnd.randint(0, 25)
+            items = [[rnd.randint(0, rnd.choice([2, 5, 100])), i] for i in range(m)]
+            c.op(op="lsort", items=items, limit=rnd.randint(0, 8), stable=rnd.random() < 0.3)
+        cases.append(c)
+    return cases
+
+
+TOK_ALPHABET = ["a", "o", "t", "n", "ж", "T", "7", "-", " ", "$", "\u0000", "\t", "́", "̈", "é", "ä", "ё", "ß", "œ", "É", ".", "'", " ", "ǅ", "İ", "ﬁ", "​"]
+
+
+def gen_tok_cases(rnd, tier, pools):
+    """C15: every string up to a small length over an adversarial alphabet, random Unicode strings, corpus titles;
+    both tokenisers, all languages"""
+    cases = []
+    maxlen = 3 if tier == "quick" else 4
+    nsym = 9 if tier == "quick" else 10
+    per_lang_alpha = {
+        "none": ["a", "T", "7", "-", " ", "$", "\u0000", "́", "é", "ß"],
+        "en":   ["a", "T", "7", "-", " ", "$", "\u0000", "t", "é", "'"],
+        "de":   ["a", "T", "7", "-", " ", "$", "̈", "ä", "ß", "Ä"],
+        "fr":   ["e", "T", "7", "-", " ", "$", "́", "é", "œ", "É"],
+        "es":   ["a", "T", "7", "-", " ", "$", "́", "á", "ñ", "̃"],
+        "pt":   ["a", "T", "7", "-", " ", "$", "̃", "ã", "ç", "̧"],
+        "ru":   ["е", "Т", "7", "-", " ", "$", "̈", "ё", "и", "Ё"],
+    }
+    for lang in LANGS:
+        alpha = per_lang_alpha[lang][:nsym]
+        c = Case("C15", "exhaustive-small", lang=lang)
+        for w in all_words(len(alpha), maxlen):
+            s = "".join(alpha[k] for k in w)
+            c.op(op="tok", lang=lang, text=cps(s), kind="q")
+            c.op(op="tok", lang=lang, text=cps(s), kind="r")
+        cases.append(c)
+        nrand = 4 if tier == "quick" else 60
+        for _ in range(nrand):
+            c = Case("C15", "random", lang=lang)
+            for _k in range(50):
+                r = rnd.random()
+                if r < 0.35:
+                    s = rnd.choice(pools[lang])
+                elif r < 0.5:
+                    s = rnd.choice(ADVERSARIAL)
+                elif r < 0.8:
+                    s = "".join(rnd.choice(TOK_ALPHABET + alpha) for _ in range(rnd.randint(0, 16)))
+                else:
+                    s = "".join(chr(rnd.choice([rnd.randint(0, 0x2FF), rnd.randint(0x300, 0x36F), rnd.randint(0x400, 0x4FF),
+                                                rnd.randint(0x2000, 0x206F), rnd.randint(0x1E00, 0x1EFF), rnd.randint(0xFF00, 0xFFEF),
+                                                rnd.randint(0x10000, 0x1F9FF)])) for _ in range(rnd.randint(1, 12)))
+                c.op(op="tok", lang=lang, text=cps(s), kind=rnd.choice(["q", "r"]))
+            cases.append(c)
+    return cases
+
+
+def gen_prepare_cases(lang, rnd, titles, toks, ncases):
+    """C18: stores built by random adds (duplicates, empty titles, one-letter words, repetitive corpora so that more
+    than 10 x size records share grams), queries around them, sizes 0..3"""
+    cases = []
+    for k in range(ncases):
+        c = Case("C18", "prepare", lang=lang)
+        sid = c.new_store(lang)
+        base = [rnd.choice(titles) for _ in range(rnd.randint(1, 4))]
+        n = rnd.choice([3, 8, 15, 35])
+        recs = []
+        for i in range(n):
+            r = rnd.random()
+            if r < 0.5:
+                t = rnd.choice(base)
+            elif r < 0.6:
+                t = rnd.choice(["", "a", "x y", "-", "a b c"])
+            elif r < 0.8:
+                ws = rnd.choice(base).split()
+                t = " ".join(rnd.sample(ws, rnd.randint(1, len(ws)))) if ws else ""
+            else:
+                t = rnd.choice(titles)
+            recs.append(t)
+            c.add(sid, i + 1, t, rnd.randint(0, 100))
+            if rnd.random() < 0.15:
+                q = random_query(lang, rnd, recs, toks)
+                c.op(op="prepare", sid=sid, q=cps(q), size=rnd.randint(0, 3))
+        for _q in range(6):
+            q = random_query(lang, rnd, recs, toks)
+            for size in rnd.sample([0, 1, 2, 3], 2):
+                c.op(op="prepare", sid=sid, q=cps(q), size=size)
+        cases.append(c)
+    return cases
+
+
+def gen_registry_cases(rnd, ncases, pools, toks, length=30):
+    """C20: interleaved valid calls over several store ids through the top-level API; a stand-alone Store per id
+    (sid = 1000 + id) is driven in lock-step and asked first, all live buffers are read after every call"""
+    cases = []
+    for _ in range(ncases):
+        c = Case("C20", "registry")
+        live = {}
+        ids = [1, 2, 3, 7]
+        nrid = 1
+        for _s in range(length):
+            r = rnd.random()
+            if (r < 0.15 or not live) and len(live) < len(ids):
+                i = rnd.choice([x for x in ids if x not in live])
+                lang = rnd.choice(LANGS)
+                live[i] = dict(lang=lang, titles=[])
+                c.op(op="r_create", id=i, lang=lang)
+                c.op(op="new", sid=1000 + i, lang=lang)
+                continue
+            i = rnd.choice(list(live))
+            L = live[i]
+            if r < 0.22:
+                c.op(op="r_destroy", id=i)
+                c.op(op="drop", sid=1000 + i)
+                del live[i]
+            elif r < 0.55:
+                t = rnd.choice(pools[L["lang"]]) if rnd.random() < 0.85 else rnd.choice(ADVERSARIAL)
+                rating = rnd.randint(0, 50)
+                c.op(op="r_add", id=i, rid=nrid, title=cps(t), rating=rating)
+                c.op(op="add", sid=1000 + i, id=nrid, title=cps(t), rating=rating)
+                L["titles"].append(t)
+                nrid += 1
+            elif r < 0.63:
+                lim = rnd.choice([0, 1, 2, 3, 10, 25, 40])
+                c.op(op="r_limit", id=i, limit=lim)
+                c.op(op="limit", sid=1000 + i, limit=lim)
+            elif r < 0.7:
+                l, rr = rnd.choice([("[", "]"), ("", ""), ("<b>", "</b>"), ("{{", "}}")])
+                c.op(op="r_markers", id=i, l=cps(l), r=cps(rr))
+                c.op(op="markers", sid=1000 + i, l=cps(l), r=cps(rr))
+            else:
+                q = random_query(L["lang"], rnd, L["titles"], toks) if L["titles"] and rnd.random() < 0.8 else rnd.choice(["", " ", "a", "zz"])
+                c.search(1000 + i, q, tag="sa%d" % i)
+                c.op(op="r_search", id=i, q=cps(q))
+        cases.append(c)
+    return cases
